@@ -181,8 +181,36 @@ var funcRoles = map[string]funcRole{
 		_, ptr := sig.Params().At(0).Type().(*types.Pointer)
 		return ptr && typeEnds(sig.Results().At(0).Type(), "func() error") && isErrorType(sig.Results().At(1).Type())
 	},
+	// the read-back: no results, takes the report by pointer (method or plain function) and reads entries
+	// back through raft.LogStore.GetLog itself
 	"verifier|LogStore.verify": func(p *Prog, fn *ssa.Function) bool {
-		return sigShape(fn, true, []string{"*github.com/hashicorp/raft-wal/verifier.VerificationReport"}, nil)
+		sig := fn.Signature
+		if sig.Results().Len() != 0 {
+			return false
+		}
+		hasReport := false
+		for i := 0; i < sig.Params().Len(); i++ {
+			if typeEnds(sig.Params().At(i).Type(), "*github.com/hashicorp/raft-wal/verifier.VerificationReport") {
+				hasReport = true
+			}
+		}
+		if !hasReport {
+			return false
+		}
+		reads := false
+		for g := range p.reachableFuncs(fn) {
+			if pkgRelOf(p, g) != "verifier" {
+				continue
+			}
+			for _, b := range g.Blocks {
+				for _, ins := range b.Instrs {
+					if ci, ok := ins.(ssa.CallInstruction); ok && eventName(ci) == "raft.LogStore.GetLog" {
+						reads = true
+					}
+				}
+			}
+		}
+		return reads
 	},
 	// the per-entry transition of the running checksum: a method taking one *raft.Log and yielding a report
 	"verifier|LogStore.updateVerifyState": func(p *Prog, fn *ssa.Function) bool {
